@@ -52,7 +52,7 @@ def group_assignments(kids: list[int], singles: bool) -> list[dict[int, str]]:
 def conditions(tier: str) -> list[core.Cond]:
     conds: list[core.Cond] = []
     nmax = 4 if tier == "quick" else 5
-    tmo = 150 if tier == "quick" else 600
+    tmo = 150 if tier == "quick" else 1500
     for n in range(2, nmax + 1):
         for parents in skeletons(n):
             sibs = sibling_sets(parents)
@@ -72,14 +72,14 @@ def conditions(tier: str) -> list[core.Cond]:
                         pass
                     for order in orders:
                         cfg = {"parents": parents, "types": types, "async": a, "group_map": gm,
-                               "rename": {}, "order": order}
+                               "rename": {}, "order": order, "sorted_starts": n >= 5}
                         name = f"links n={n} tree={canon(parents)} async={int(a)} groups={json.dumps(gm, sort_keys=True)} order={order}"
                         conds.append(core.Cond(name, HARNESS, f"check{n}", cfg, tmo))
             # shared types: the same (parent type, child type) rule applies at several places
             same = ["R"] + ["A"] * (n - 1)
             for gm2 in ({"R": {"A": "g1"}}, {"R": {"A": "g1"}, "A": {"A": "g2"}}):
                 for a in (False, True):
-                    cfg = {"parents": parents, "types": same, "async": a, "group_map": gm2, "rename": {}, "order": "fwd"}
+                    cfg = {"parents": parents, "types": same, "async": a, "group_map": gm2, "rename": {}, "order": "fwd", "sorted_starts": n >= 5}
                     conds.append(core.Cond(f"links-sametype n={n} tree={canon(parents)} async={int(a)} groups={json.dumps(gm2, sort_keys=True)}",
                                            HARNESS, f"check{n}", cfg, tmo))
     # vacuity twins: one per span count
